@@ -52,9 +52,10 @@ def watchdog(seconds=120):
         signal.signal(signal.SIGALRM, old)
 
 
-def in_child(fn, *args):
+def in_child(fn, *args, quiet=False):
     """run fn(*args) in a forked child and return its (picklable) result: whatever the call leaves
-    behind in the process - blocked threads, held locks - dies with the child"""
+    behind in the process - blocked threads, held locks - dies with the child.
+    quiet: the child's stderr goes to /dev/null (a dying interpreter dumps thousands of lines)"""
     import pickle
     r, w = os.pipe()
     pid = os.fork()
@@ -62,6 +63,9 @@ def in_child(fn, *args):
         code = 0
         try:
             os.close(r)
+            if quiet:
+                dn = os.open(os.devnull, os.O_WRONLY)
+                os.dup2(dn, 2)
             try:
                 data = pickle.dumps(('ok', fn(*args)))
             except BaseException:  # noqa: BLE001
